@@ -436,7 +436,20 @@ def check(ck):
 
     # ---- C09.8 worker accounting (shared with C10.7 / C10.7b) ------------------------------------------------------------
     from rules import c10
-    common.import_rules(ck, c10, {"C10.7": "C09.8", "C10.7b": "C09.8", "C10.1": "C09.8", "C10.5": "C09.9", "C10.4": "C09.8"})
+    common.import_rules(ck, c10, {"C10.7": "C09.8", "C10.7b": "C09.8", "C10.1": "C09.8", "C10.5": "C09.9", "C10.4": "C09.8", "C10.3": "C09.8"})
+    # start(): the stop flag is cleared before the queue is measured - a task enqueued by another thread in between is then either seen
+    # by start() (counted in its measure) or handled by enqueue()'s own growth test, which only starts workers while the flag is clear
+    fst_ = prog.func(TP, "ThreadPool.start")
+    gst_ = cfg_of(fst_)
+    dst_ = dominators(gst_)
+    clr_ = [n for n in gst_.live_nodes() for c in node_calls(n) if dump(c.func) == "self._done_event.clear"]
+    qsz_ = [n for n in gst_.live_nodes() for c in node_calls(n) if call_name(c) == "qsize"]
+    if not clr_ or not qsz_:
+        raise AnalysisError("anchor vanished: _done_event.clear() / qsize() in ThreadPool.start")
+    ck.require(all(any(c_.id in dst_[q_.id] for c_ in clr_) for q_ in qsz_), "C09.8", "%s: the stop flag is cleared before the queue is measured" % q.fn(fst_),
+               "clear() dominates qsize()",
+               "start() reads the queue size before it clears the stop flag: a task enqueued in between is not in the measure and enqueue() starts "
+               "no worker for it while the flag is still set - with min_threads = 0 the running pool never executes it", q.loc(fst_, qsz_[0]))
     ck.floor("C09.8", 8)
     ck.floor("C09.9", 8)
 
